@@ -115,19 +115,17 @@ def oracle(case, out):
         fails.append((None, "absolute bound reported %g, requested %g (%s stream)" % (f32(b6), absb, "constant" if d["const"] == "1" else "regular")))
     if mode in (0, 2, 3) and d["const"] == "0":
         if ty >= 2 and b6 != f32bits(absb):
-            cls = "meta_int_bound_from_config" if b6 == f32bits(CFG_ABS) else None
+            cls = None
             fails.append((cls, "integer stream reports absolute bound %g, requested %g" % (f32(b6), absb)))
     if mode in (1, 2, 3) and d["const"] == "0" and b10 != f32bits(rel):
-        cls = "meta_rel_ratio_from_config" if b10 == f32bits(CFG_REL) else None
+        cls = None
         fails.append((cls, "range-relative ratio reported %g, requested %g" % (f32(b10), rel)))
     # every element within the absolute bound the metadata reports
     if int(d["repmode"], 16) == 0 and d["lossless"] == "0":
         rep = dbl(d["repabs"])
         me = dbl(d["maxerr"])
         if me > rep:
-            if ty >= 2 and abs(rep - CFG_ABS) < 1e-9:
-                cls = "meta_int_bound_from_config"
-            elif ty >= 2 and rep != int(rep) and me < rep + 1:
+            if ty >= 2 and rep != int(rep) and me < rep + 1:
                 cls = "int_fractional_bound"          # C03's class: pred + 2ke truncated toward zero
             elif mode in (0, 4, 5) and ty < 2 and me <= max(e, rep) * (1 + 2.0 ** -22) + 64 * classes.ulp(dbl(d["amax"]), ty):
                 cls = "meta_bound_float_narrowing"
